@@ -16,6 +16,8 @@ static EarlyInit g_early_init;
 #include <set>
 #include <functional>
 #include <type_traits>
+#include <utility>
+#include <sys/mman.h>
 
 // default-constructed namespace-scope buffers are constant-initialised (constexpr buffer()): a value assigned to them during
 // static initialisation is still theirs when main() starts
@@ -42,13 +44,127 @@ template <> struct TN<wchar_t> { static const char *n() { return "wchar_t"; } };
 template <> struct TN<char16_t> { static const char *n() { return "char16_t"; } };
 template <> struct TN<char32_t> { static const char *n() { return "char32_t"; } };
 
+// ---- where the objects live.  ST::buffer<T> has alignment 8, but whatever malloc, operator new, a local variable or a
+// std::vector element gives a program is 16-byte aligned; an object at an address 8 mod 16 exists only as a member behind an
+// int, as std::pair<int, B>::second, inside a std::map node ...  Half of the stand-alone pool objects therefore live 8 bytes
+// into a block of sizeof(B) + 8 bytes (the END of the object is still the end of the block, so a write past the object lands in
+// the red zone; the 8 bytes in front are poisoned under ASan).  Some pools also keep their first slots inside one block, laid
+// out the way the members of a struct / the elements of an array are: there a write that leaves one object lands in its
+// neighbour, which ASan cannot see and the monitor can (it looks at every live object after every step).  A released
+// stand-alone block is, one time in four, handed to the next object of the same kind (rt/vrt_st.h "address reuse").
+template <typename Obj>
+struct Places {
+    enum { NONE = 0, RECORDS, ARRAY, PAIRS };
+    struct Record { int id; Obj a; Obj b; };                 // (only its layout is used)
+    static const size_t MEMBER = (sizeof(int) + alignof(Obj) - 1) / alignof(Obj) * alignof(Obj);      // offset of a member behind an int
+    static_assert(sizeof(Record) == MEMBER + 2 * sizeof(Obj) && sizeof(std::pair<int, Obj>) == MEMBER + sizeof(Obj) && MEMBER % 8 == 0 && sizeof(Obj) % 8 == 0,
+                  "layout of an object that is a member behind an int");
+    static const size_t MAXFIXED = 4;
+    int layout = NONE;
+    char *block[2] = {nullptr, nullptr};
+    size_t block_bytes[2] = {0, 0};
+    char *fixed[MAXFIXED] = {nullptr, nullptr, nullptr, nullptr};       // slot k < nfixed lives here
+    size_t nfixed = 0;
+    char *canary[2] = {nullptr, nullptr};                               // the `int` members (and their padding)
+    size_t ncanary = 0;
+
+    static void poison(void *p, size_t n) { vrt::RecyclePool::poison(p, n); }
+    static void unpoison(void *p, size_t n) { vrt::RecyclePool::unpoison(p, n); }
+    static char *raw(size_t bytes)
+    {
+        void *p = malloc(bytes);
+        if (!p) { fprintf(stderr, "vrt: out of memory\n"); _exit(98); }
+        return static_cast<char *>(p);
+    }
+    Places() { }
+    Places(const Places &) = delete;
+    Places &operator=(const Places &) = delete;
+    void init(int want)
+    {
+        layout = want;
+        auto add_block = [&](size_t k, size_t bytes) { block[k] = raw(bytes); block_bytes[k] = bytes; memset(block[k], 0xC5, bytes); poison(block[k], bytes); };
+        auto add_canary = [&](char *at) { unpoison(at, MEMBER); canary[ncanary++] = at; };
+        switch (layout) {
+        case RECORDS:         // two `struct { int id; Obj a; Obj b; }`, each in a block of its own: all four objects at 8 mod 16
+            for (size_t k = 0; k < 2; ++k) {
+                add_block(k, sizeof(Record));
+                add_canary(block[k]);
+                fixed[nfixed++] = block[k] + MEMBER;
+                fixed[nfixed++] = block[k] + MEMBER + sizeof(Obj);
+            }
+            break;
+        case ARRAY: {         // `Obj arr[3]`, in half of the pools behind an 8-byte header
+            const size_t lead = (vrt::placement_here() && (vrt::placement_next() & 1)) ? 8 : 0;
+            add_block(0, lead + 3 * sizeof(Obj));
+            for (size_t k = 0; k < 3; ++k) fixed[nfixed++] = block[0] + lead + k * sizeof(Obj);
+            break;
+        }
+        case PAIRS: {         // `std::pair<int, Obj> arr[2]`
+            const size_t stride = MEMBER + sizeof(Obj);
+            add_block(0, 2 * stride);
+            for (size_t k = 0; k < 2; ++k) { add_canary(block[0] + k * stride); fixed[nfixed++] = block[0] + k * stride + MEMBER; }
+            break;
+        }
+        default: layout = NONE; break;
+        }
+    }
+    ~Places()
+    {
+        for (size_t k = 0; k < 2; ++k)
+            if (block[k]) { unpoison(block[k], block_bytes[k]); free(block[k]); }
+    }
+    bool canaries_intact() const
+    {
+        for (size_t k = 0; k < ncanary; ++k)
+            for (size_t b = 0; b < MEMBER; ++b)
+                if (static_cast<unsigned char>(canary[k][b]) != 0xC5) return false;
+        return true;
+    }
+    // a layout for a pool, from the per-case placement stream: half of the pools have stand-alone objects only
+    static int draw_layout()
+    {
+        if (!vrt::placement_here() || !vrt::placement_shifts()) return NONE;
+        switch ((vrt::placement_next() >> 5) & 7) {
+        case 0: case 1: return RECORDS;
+        case 2: return ARRAY;
+        case 3: return PAIRS;
+        default: return NONE;
+        }
+    }
+    // memory for a stand-alone object: a block that ends where the object ends; the object starts at 0 or 8 mod 16
+    struct Own { void *base = nullptr; size_t bytes = 0; };
+    static void *obtain(Own &o, int lead_wanted)           // lead_wanted: 0 / 8, or -1 = from the placement stream
+    {
+        size_t lead = 0;
+        if (lead_wanted >= 0) lead = static_cast<size_t>(lead_wanted);
+        else if (vrt::placement_here() && vrt::placement_shifts() && (vrt::placement_next() & 1)) lead = 8;
+        o.bytes = sizeof(Obj) + lead;
+        o.base = vrt::recycle_pool().take(o.bytes);
+        if (!o.base) o.base = raw(o.bytes);
+        if (lead) poison(o.base, lead);
+        return static_cast<char *>(o.base) + lead;
+    }
+    static void release(Own &o)
+    {
+        if (o.bytes > sizeof(Obj)) unpoison(o.base, o.bytes - sizeof(Obj));
+        if (!vrt::recycle_pool().park(o.base, o.bytes)) free(o.base);
+        o.base = nullptr;
+        o.bytes = 0;
+    }
+    static void tally(const void *obj)
+    {
+        if (reinterpret_cast<uintptr_t>(obj) % 16 == 8) { static uint64_t &c = vrt::counter("placement.objects_at_8_mod_16"); ++c; }
+        else { static uint64_t &c = vrt::counter("placement.objects_16_byte_aligned"); ++c; }
+    }
+};
+
 template <typename T>
 struct Pool {
     typedef ST::buffer<T> B;
     typedef std::basic_string<T> BS;
     static const size_t N = 8;
-    // the object lives in a heap block of exactly sizeof(B) bytes: a write one element
-    // past the in-object array lands in an ASan red zone
+    // the object lives in a heap block that ends where the object ends (a write one element past the in-object array lands
+    // in an ASan red zone), at an address 0 or 8 mod 16 - or next to its neighbours inside one block (Places above)
     struct Handle {
         B *p;
         B &operator*() const { return *p; }
@@ -64,8 +180,15 @@ struct Pool {
         Handle h{nullptr};
         BS shadow;
         bool moved_from = false;
+        typename Places<B>::Own own;          // the block of a stand-alone object
+        bool foreign = false;                 // the object lives in memory the case supplied (place_next)
     };
     Slot slots[N];
+    // where the objects live: slots k < places.nfixed are neighbours inside one block, the others stand alone (half at 8 mod 16)
+    Places<B> places;
+    void *place_next = nullptr;               // scripted step: the next object is constructed exactly here (memory owned by the case)
+    int lead_next = -1;                       // scripted step: the next stand-alone object starts 0 / 8 bytes into its block
+    explicit Pool(int layout = -1) { places.init(layout >= 0 ? layout : Places<B>::draw_layout()); }
     std::string history;
     const char *tn = TN<T>::n();
     // a moved-from object may report any value, but not an absurd one: nothing bigger than the largest value this pool has ever
@@ -92,7 +215,10 @@ struct Pool {
         if (s.box) {
             B *obj = s.h.p;
             obj->~B();
-            free(obj);
+            const size_t k = static_cast<size_t>(&s - slots);
+            if (s.foreign) { Places<B>::poison(obj, sizeof(B)); s.foreign = false; }
+            else if (k < places.nfixed) Places<B>::poison(obj, sizeof(B));         // (the place stays; nothing may touch it until the next object is built there)
+            else Places<B>::release(s.own);
             s.h.p = nullptr;
             s.box = nullptr;
         }
@@ -102,7 +228,13 @@ struct Pool {
     template <typename... A>
     void construct(Slot &s, A &&...a)
     {
-        void *mem = malloc(sizeof(B));
+        const size_t k = static_cast<size_t>(&s - slots);
+        void *mem;
+        if (place_next) { mem = place_next; place_next = nullptr; s.foreign = true; Places<B>::unpoison(mem, sizeof(B)); }
+        else if (k < places.nfixed) { mem = places.fixed[k]; Places<B>::unpoison(mem, sizeof(B)); }
+        else mem = Places<B>::obtain(s.own, lead_next);
+        lead_next = -1;
+        Places<B>::tally(mem);
         {
             va::LibScope ls;
             s.h.p = new (mem) B(std::forward<A>(a)...);
@@ -136,8 +268,12 @@ struct Pool {
                          sfmt("size=%zu < limit %zu but data() is outside the object's own footprint, after %s", n, limit(), after));
             } else {
                 va::Block *blk = va::find(d);
-                if (inside) fail("long-content-inside-object", i, sfmt("size=%zu >= limit but data() is in-object, after %s", n, after));
-                else if (!blk) {
+                if (inside) {
+                    // (nothing is read or released through this object any more: size() elements do not fit into the object)
+                    fail(s.moved_from ? "moved-from:long-content-inside-object" : "long-content-inside-object", i, sfmt("size=%zu >= limit but data() is in-object, after %s", n, after));
+                    s.box = nullptr;
+                    continue;
+                } else if (!blk) {
                     fail(s.moved_from ? "moved-from:data-not-a-live-block" : "data-not-a-live-block", i, sfmt("size=%zu: data() is not the start of a live heap block, after %s", n, after));
                     continue;       // do not read through a dangling pointer
                 } else {
@@ -161,6 +297,7 @@ struct Pool {
             }
             if (d[n] != T()) fail("no-terminator", i, sfmt("size=%zu after %s", n, after));
         }
+        if (!places.canaries_intact()) fail("neighbouring-member-overwritten", 0, sfmt("the int member in front of a buffer inside a struct / pair no longer holds its value, after %s", after));
         // conservation: every heap block the library holds belongs to exactly one long buffer
         if (va::reg().live_lib != longs)
             fail(va::reg().live_lib > longs ? "leaked-block" : "missing-block", 0, sfmt("library-owned live blocks=%zu, long buffers=%zu after %s", va::reg().live_lib, longs, after));
@@ -219,7 +356,7 @@ struct Pool {
     }
     // one operation (numbered as in the switch) on live slots i, j / empty slot e (N = there is none), then the monitor
     enum { OP_PTR_CTOR = 0, OP_DEFAULT_CTOR = 2, OP_FILL_CTOR = 3, OP_COPY_CTOR = 4, OP_MOVE_CTOR = 5, OP_COPY_ASSIGN = 6, OP_MOVE_ASSIGN = 8, OP_ALLOCATE = 10, OP_ALLOCATE_FILL = 12,
-           OP_CLEAR = 13, OP_DESTROY = 14, OP_ELEMENT_WRITE = 16, OP_READ = 17 };
+           OP_CLEAR = 13, OP_DESTROY = 14, OP_ELEMENT_WRITE = 16, OP_READ = 17, OP_AT_BEYOND = 20 /* scripted only */ };
     T pick_fill(Rng &r)
     {
         T fill = r.chance(1, 5) ? T() : static_cast<T>(1 + r.below(100));        // a zero fill is a fill like any other
@@ -231,6 +368,10 @@ struct Pool {
     {
         char desc[160];
         desc[0] = 0;
+        // (a scripted step names its slots: one that was given up after a violation is skipped like a missing one)
+        if (i < N && !slots[i].box) i = N;
+        if (j < N && !slots[j].box) j = N;
+        if (e < N && slots[e].box) e = N;
         switch (op) {
         case 0: case 1:
             if (e < N) {
@@ -361,6 +502,15 @@ struct Pool {
                 }
                 slots[i].shadow[k] = v;
                 snprintf(desc, sizeof(desc), "s%zu[%zu]=elem", i, k);
+            }
+            break;
+        case OP_AT_BEYOND:
+            if (i < N) {
+                // a call that fails: at() beyond the last element throws; nothing may have changed (the reference is not used if it does not)
+                B &b = **slots[i].box;
+                const size_t k = slots[i].shadow.size() + 1 + r.below(3);
+                try { va::LibScope ls; (void)&b.at(k); } catch (const std::out_of_range &) { va::HarnessScope hs; vrt::count("op.failing_call_threw"); }
+                snprintf(desc, sizeof(desc), "s%zu.at(%zu) beyond the end", i, k);
             }
             break;
         default:
@@ -599,6 +749,419 @@ static void scale_phase()
     });
 }
 
+// ---- same_storage: within ONE case, 3..6 different values of IDENTICAL size that share their first and last 16 elements and differ
+// in between, each brought to the same addresses before the library sees it: (a) the caller's array is one malloc'ed block
+// (ending where the data ends, starting at every alignment 0..15) that is overwritten in place between the calls; (b) the buffer
+// under test is destroyed and its successor of the same size built right away, with the releases parked so that the object and
+// its heap block come back at the addresses of the dead ones (how often that worked is counted and required, nothing is asserted
+// about it).  Every value then goes through the usual operations in an order that differs from value to value, with calls that
+// fail (at() beyond the end) in between; the monitor is the one every phase uses.
+template <typename T>
+static void same_storage_phase()
+{
+    typedef Pool<T> P;
+    typedef typename P::BS BS;
+    const char *tn = TN<T>::n();
+    const std::string pn = std::string("same_storage_") + tn;
+    const size_t L = P::limit();
+    const size_t sizes[] = {20, 40, 64, 100, 256, 300, 1024, 1500, 4096, 5000, L, L - 1, 20000, 70000, 2 * L, 33};
+    const size_t nsizes = sizeof(sizes) / sizeof(sizes[0]);
+    vrt::phase(pn.c_str(), vrt::tier_count(16 * nsizes, 400 * nsizes), [&](uint64_t idx, Rng &r) {
+        const size_t n = sizes[idx % nsizes];
+        const size_t align = ((idx / nsizes) % 16) / sizeof(T) * sizeof(T);          // bytes between the start of the caller's block and the data
+        {
+            P pool;
+            const size_t N = P::N;
+            pool.sane_max = std::max<size_t>(100000, 2 * n + 64);
+            pool.len_fn = [&pool, n](Rng &rr) -> size_t { return rr.chance(1, 2) ? n : pool.class_len(rr); };
+            // the values: common head and tail, different middles
+            const size_t K = 3 + r.below(4), edge = n >= 48 ? 16 : n / 3;
+            std::vector<BS> values;
+            {
+                va::HarnessScope hs;
+                const BS first = pool.random_content(r, n);
+                for (size_t k = 0; k < K; ++k) {
+                    BS v = pool.random_content(r, n);
+                    for (size_t e = 0; e < edge; ++e) { v[e] = first[e]; v[n - 1 - e] = first[n - 1 - e]; }
+                    if (n) v[n / 2] = static_cast<T>(0x21 + k);                       // (consecutive values do differ)
+                    values.push_back(std::move(v));
+                }
+            }
+            // (a) the caller's storage: one block for all values
+            char *block = static_cast<char *>(malloc(align + n * sizeof(T) + (n ? 0 : 1)));
+            if (!block) { fprintf(stderr, "vrt: out of memory\n"); _exit(98); }
+            memset(block, 0x5A, align);
+            if (align && align % 8 == 0) Places<typename P::B>::poison(block, align);
+            T *const arr = reinterpret_cast<T *>(block + align);
+            const size_t X = r.below(4), W = 4, Y = 5, Z = 6, V = 7;                   // X: under test (a neighbour inside a block in some pools); the others stand alone
+            auto op = [&](unsigned o, size_t i, size_t j, size_t e) { pool.do_op(r, o, i, j, e); };
+            auto drop = [&](size_t k) { if (pool.slots[k].box) op(P::OP_DESTROY, k, N, N); };
+            for (size_t k = 0; k < K; ++k) {
+                const BS &val = values[k];
+                if (n) memcpy(arr, val.data(), n * sizeof(T));                         // in place: same address, same length, same first and last elements
+                // (b) the successor of the object under test, at the same addresses
+                const void *old_obj = nullptr, *old_data = nullptr;
+                const unsigned route = static_cast<unsigned>((k + idx / nsizes) % 4);
+                if (route == 3) {
+                    // (the buffer the successor will be a copy of is built first, so that the successor's block is the next one asked for)
+                    drop(W);
+                    pool.construct(pool.slots[W], static_cast<const T *>(arr), n);
+                    pool.slots[W].shadow = val;
+                }
+                if (pool.slots[X].box) {
+                    old_obj = pool.slots[X].h.p;
+                    old_data = (**pool.slots[X].box).data();
+                    vrt::placement_force_parks() = 4;
+                    op(P::OP_DESTROY, X, N, N);
+                    pool.lead_next = static_cast<int>(reinterpret_cast<uintptr_t>(old_obj) % 16);
+                }
+                char how[96];
+                switch (route) {
+                case 0:
+                    pool.construct(pool.slots[X], static_cast<const T *>(arr), n);
+                    snprintf(how, sizeof(how), "s%zu=B(caller's array,%zu)", X, n);
+                    break;
+                case 1:
+                    pool.construct(pool.slots[X]);
+                    { va::LibScope ls; (**pool.slots[X].box).allocate(n); }
+                    for (size_t e = 0; e < n; ++e) (**pool.slots[X].box).data()[e] = arr[e];
+                    snprintf(how, sizeof(how), "s%zu=B(); allocate(%zu)+write", X, n);
+                    break;
+                case 2:
+                    pool.construct(pool.slots[X], n, T('f'));
+                    for (size_t e = 0; e < n; ++e) (**pool.slots[X].box)[e] = arr[e];
+                    snprintf(how, sizeof(how), "s%zu=B(%zu,fill)+write", X, n);
+                    break;
+                default:
+                    pool.construct(pool.slots[X], static_cast<const typename P::B &>(**pool.slots[W].box));
+                    snprintf(how, sizeof(how), "s%zu=B(copy of s%zu=B(caller's array,%zu))", X, W, n);
+                    break;
+                }
+                vrt::placement_force_parks() = 0;
+                pool.lead_next = -1;
+                pool.slots[X].shadow = val;
+                { va::HarnessScope hs; if (pool.history.size() < 1500) { pool.history += how; pool.history += "; "; } }
+                vrt::cur_printf("%s (value %zu of %zu)\n", how, k + 1, K);
+                if (old_obj) {
+                    vrt::count("same_storage.successors");
+                    if (pool.slots[X].h.p == old_obj) vrt::count("same_storage.object_at_the_address_of_its_predecessor");
+                    if (n >= L) {
+                        vrt::count("same_storage.long_successors");
+                        if ((**pool.slots[X].box).data() == old_data) vrt::count("same_storage.heap_block_at_the_address_of_its_predecessor");
+                    }
+                }
+                pool.check_all(how);
+                vrt::count("steps");
+                vrt::count("same_storage.values");
+                // the usual operations, in another order for every value
+                unsigned order[10] = {0, 1, 2, 3, 4, 5, 6, 7, 8, 9};               // (the random step stays last: it may give the object under test another value)
+                for (size_t a = 8; a > 0; --a) std::swap(order[a], order[r.below(a + 1)]);
+                for (unsigned which : order) {
+                    switch (which) {
+                    case 0: drop(Y); op(P::OP_COPY_CTOR, N, X, Y); break;
+                    case 1: if (!pool.slots[Z].box) { pool.force_len = n; op(P::OP_FILL_CTOR, N, N, Z); } op(P::OP_COPY_ASSIGN, Z, X, N); break;     // (Z mostly holds the previous value: same size)
+                    case 2: op(P::OP_READ, X, pool.slots[Z].box ? Z : X, N); break;
+                    case 3: op(P::OP_AT_BEYOND, X, N, N); break;
+                    case 4: drop(V); op(P::OP_MOVE_CTOR, N, X, V); op(P::OP_MOVE_ASSIGN, X, V, N); break;                                       // out and back
+                    case 5: op(P::OP_COPY_ASSIGN, X, X, N); break;
+                    case 6: if (pool.slots[Z].box) { op(P::OP_MOVE_ASSIGN, Z, X, N); op(P::OP_MOVE_ASSIGN, X, Z, N); } break;                          // out and back by assignment
+                    case 7: drop(W); pool.force_len = n; op(P::OP_PTR_CTOR, N, N, W); op(P::OP_COPY_ASSIGN, W, X, N); break;
+                    case 8: op(P::OP_READ, X, X, N); op(P::OP_AT_BEYOND, pool.slots[Y].box ? Y : X, N, N); break;
+                    default:
+                        pool.step(r);
+                        if (!pool.slots[X].box) { pool.force_len = n; op(P::OP_FILL_CTOR, N, N, X); }
+                        break;
+                    }
+                }
+            }
+            if (align && align % 8 == 0) Places<typename P::B>::unpoison(block, align);
+            free(block);
+            vrt::distinct(vrt::fnv1a(pool.history.data(), pool.history.size(), vrt::fnv_u64(idx, vrt::fnv_str(tn))));
+            if (vrt::want_sample("same_storage") && idx > 20)
+                vrt::sample("same_storage", sfmt("buffer<%s>: %zu values of %zu elements, caller's array %zu bytes into its block | %s", tn, K, n, align, pool.history.substr(0, 400).c_str()));
+        }
+        if (va::reg().live_lib != 0) {
+            vrt::violation(sfmt("C05:buffer<%s>:leak-at-quiescence", tn), sfmt("%zu library-owned blocks alive after all buffers were destroyed (same_storage, n=%zu)", va::reg().live_lib, n));
+            va::reg().live_lib = 0;
+        }
+        vrt::count("same_storage.cases");
+    });
+}
+
+// ---- soak: more than 70000 consecutive operations of one family on the buffers of ONE pool inside ONE case (one process, one
+// thread), on sizes above the small-buffer limit (64..300 elements, the classes around the limit now and then), so that state a
+// library might keep between calls - a counter that enables a path after N calls or wraps after 2^16, a memo of the last block -
+// goes through its whole cycle.  Runs of 64..300 calls with the same arguments are followed directly by one that differs (another
+// size class, the object itself, an object that was just moved from).  16 cases: four families x four element types.
+template <typename T>
+static void soak_case(uint64_t idx, Rng &r, unsigned family)
+{
+    typedef Pool<T> P;
+    const char *tn = TN<T>::n();
+    static const char *const fam[] = {"copy assignment", "move assignment / construction", "allocate / clear", "construction / destruction"};
+    const size_t target = vrt::opt().scale < 1.0 ? 8000 : 72000;          // (the memcheck pass runs a short one)
+    size_t done = 0, runs = 0;
+    {
+        P pool;
+        const size_t N = P::N, L = P::limit();
+        pool.len_fn = [&pool, L](Rng &rr) -> size_t {
+            switch (rr.below(8)) {
+            case 0: return pool.class_len(rr);
+            case 1: return L + rr.below(3);
+            default: return 64 + rr.below(237);
+            }
+        };
+        auto op = [&](unsigned o, size_t i, size_t j, size_t e) { pool.do_op(r, o, i, j, e); ++done; };
+        auto lenop = [&](unsigned o, size_t len, size_t i, size_t j, size_t e) { pool.force_len = len; op(o, i, j, e); };
+        auto live = [&](size_t k) { if (!pool.slots[k].box) lenop(P::OP_PTR_CTOR, pool.len_fn(r), N, N, k); };
+        auto odd_len = [&]() -> size_t { const size_t c[] = {0, 1, L - 1, L, L + 1, 2 * L, 1000}; return c[r.below(7)]; };
+        for (size_t k = 0; k + 2 < N; ++k) live(k);
+        while (done < target) {
+            const size_t run = 64 + r.below(237);
+            size_t i = r.below(N), j = (i + 1 + r.below(N - 1)) % N;
+            const size_t len = 64 + r.below(237);
+            if ((runs & 7) == 0) vrt::cur_rewind();                 // (the recorder keeps the last runs only)
+            switch (family) {
+            case 0: {
+                live(i); live(j);
+                lenop(P::OP_ALLOCATE, len, j, N, N);
+                for (size_t k = 0; k < run; ++k) op(P::OP_COPY_ASSIGN, i, j, N);                    // after the first: a value of the size (and content) held
+                switch (r.below(4)) {
+                case 0: lenop(P::OP_ALLOCATE, odd_len(), j, N, N); op(P::OP_COPY_ASSIGN, i, j, N); break;       // another size class
+                case 1: op(P::OP_COPY_ASSIGN, i, i, N); break;
+                case 2: op(P::OP_ELEMENT_WRITE, j, N, N); op(P::OP_COPY_ASSIGN, i, j, N); break;                // same size, one element differs
+                default: op(P::OP_MOVE_ASSIGN, j, i, N); op(P::OP_COPY_ASSIGN, i, j, N); break;                 // from / into a moved-from object
+                }
+                break;
+            }
+            case 1: {
+                live(i); live(j);
+                lenop(P::OP_ALLOCATE, len, j, N, N);
+                for (size_t k = 0; k < run; ++k) { if (k & 1) op(P::OP_MOVE_ASSIGN, j, i, N); else op(P::OP_MOVE_ASSIGN, i, j, N); }     // the value goes back and forth
+                switch (r.below(4)) {
+                case 0: lenop(P::OP_ALLOCATE, odd_len(), j, N, N); op(P::OP_MOVE_ASSIGN, i, j, N); break;
+                case 1: op(P::OP_MOVE_ASSIGN, i, i, N); break;
+                case 2: { const size_t e = (i + 1 + r.below(N - 1)) % N; if (pool.slots[e].box) op(P::OP_DESTROY, e, N, N); op(P::OP_MOVE_CTOR, N, i, e); op(P::OP_MOVE_ASSIGN, i, e, N); break; }
+                default: op(P::OP_MOVE_ASSIGN, i, j, N); op(P::OP_MOVE_ASSIGN, i, j, N); break;                 // twice from the same source: the second time it is a moved-from object
+                }
+                break;
+            }
+            case 2: {
+                live(i);
+                const bool fill = r.chance(1, 2);
+                for (size_t k = 0; k < run; ++k) lenop(fill ? P::OP_ALLOCATE_FILL : P::OP_ALLOCATE, len, i, N, N);                  // the size it holds, again and again
+                switch (r.below(5)) {
+                case 0: lenop(P::OP_ALLOCATE, L + r.below(len - L), i, N, N); lenop(P::OP_ALLOCATE, len, i, N, N); break;           // smaller (still long), then back
+                case 1: lenop(P::OP_ALLOCATE_FILL, odd_len(), i, N, N); lenop(P::OP_ALLOCATE, len + 1, i, N, N); break;
+                case 2: op(P::OP_CLEAR, i, N, N); lenop(P::OP_ALLOCATE, len, i, N, N); break;
+                case 3: live(j); op(P::OP_MOVE_ASSIGN, j, i, N); lenop(P::OP_ALLOCATE, len - 1, i, N, N); lenop(P::OP_ALLOCATE, len, j, N, N); break;
+                default: pool.force_fill = 2; lenop(P::OP_ALLOCATE_FILL, len, i, N, N); break;
+                }
+                break;
+            }
+            default: {
+                live(j);
+                for (size_t k = 0; k < run; k += 2) {                                                                               // one object after the other at (often) the same place
+                    if (pool.slots[i].box) op(P::OP_DESTROY, i, N, N);
+                    lenop(P::OP_PTR_CTOR, len, N, N, i);
+                }
+                if (pool.slots[i].box) op(P::OP_DESTROY, i, N, N);
+                switch (r.below(4)) {
+                case 0: lenop(P::OP_FILL_CTOR, len, N, N, i); break;
+                case 1: op(P::OP_COPY_CTOR, N, j, i); break;
+                case 2: op(P::OP_MOVE_CTOR, N, j, i); break;
+                default: lenop(P::OP_PTR_CTOR, odd_len(), N, N, i); break;
+                }
+                break;
+            }
+            }
+            vrt::count("soak.runs_of_64_or_more_equal_calls_then_a_different_one");
+            ++runs;
+            for (size_t k = r.below(4); k > 0; --k) { pool.step(r); ++done; }                      // (something else in between)
+        }
+        vrt::distinct(vrt::fnv1a(pool.history.data(), pool.history.size(), vrt::fnv_u64(idx, vrt::fnv_str(tn))));
+        if (vrt::want_sample("soak", 4))
+            vrt::sample("soak", sfmt("buffer<%s>, %s: %zu consecutive operations on one pool in one case, %zu runs of 64..300 equal calls each followed by a different one", tn, fam[family], done, runs), 4);
+    }
+    if (va::reg().live_lib != 0) {
+        vrt::violation(sfmt("C05:buffer<%s>:leak-at-quiescence", tn), sfmt("%zu library-owned blocks alive after all buffers were destroyed (soak)", va::reg().live_lib));
+        va::reg().live_lib = 0;
+    }
+    vrt::count("soak.operations", done);
+    if (done >= 70000) vrt::count("soak.cases_with_70000_or_more_consecutive_operations");
+}
+
+// ---- congruent: the address of the object in a chosen relation to the address of its own heap block.  For a long buffer whose
+// block is at H the case computes a place A with  A + (offset of the in-object array) + d == H  modulo 2^16, 2^24, 2^32 bytes or
+// 2^32 elements (d = 0 or a few elements below the small-buffer limit), maps memory there, and moves / copies the buffer into and
+// out of an object at A; a second object is built in place at an address computed for a block that was just released (and is
+// re-issued to it, best effort).  A distance between two pointers that is narrowed, or compared after truncation, gives the
+// wrong answer only for such pairs - and no amount of random histories produces one.  The monitor is the usual one.
+#ifndef MAP_FIXED_NOREPLACE
+#define MAP_FIXED_NOREPLACE 0x100000
+#endif
+struct Mapping {
+    char *p = nullptr;
+    size_t len = 0;
+    Mapping() { }
+    Mapping(const Mapping &) = delete;
+    Mapping &operator=(const Mapping &) = delete;
+    void drop() { if (p) { vrt::RecyclePool::unpoison(p, len); munmap(p, len); p = nullptr; } }
+    ~Mapping() { drop(); }
+    // an address A (a multiple of 8) with  A == want  modulo 2^bits, in fresh memory; nullptr when there is none to be had
+    char *at(Rng &r, uintptr_t want, unsigned bits, uintptr_t keep_off)
+    {
+        drop();
+        const uintptr_t M = static_cast<uintptr_t>(1) << bits, low = want & (M - 1);
+        if (bits <= 24) {
+            // any mapping of 2^bits bytes (plus room for the object) holds every residue
+            len = M + 2 * 4096;
+            void *m = mmap(nullptr, len, PROT_READ | PROT_WRITE, MAP_PRIVATE | MAP_ANONYMOUS | MAP_NORESERVE, -1, 0);
+            if (m == MAP_FAILED) { p = nullptr; return nullptr; }
+            p = static_cast<char *>(m);
+            const uintptr_t a = reinterpret_cast<uintptr_t>(p);
+            uintptr_t c = (a & ~(M - 1)) + low;
+            if (c < a) c += M;
+            vrt::RecyclePool::poison(p, len);
+            return reinterpret_cast<char *>(c);
+        }
+        static const uintptr_t bases[] = {0x200000000000u, 0x300000000000u, 0x400000000000u, 0x180000000000u, 0x280000000000u, 0x500000000000u, 0x600000000000u,
+                                          0x001000000000u, 0x000800000000u, 0x000c00000000u, 0x002000000000u, 0x700000000000u};
+        const uintptr_t page_low = low & ~static_cast<uintptr_t>(4095);
+        len = 2 * 4096;
+        for (int tries = 0; tries < 24; ++tries) {
+            const uintptr_t base = bases[r.below(sizeof(bases) / sizeof(bases[0]))] & ~(M - 1);
+            const uintptr_t addr = base + r.below(bits >= 36 ? 16 : 64) * M + page_low;
+            if (addr == 0 || addr + len >= (static_cast<uintptr_t>(1) << 47)) continue;
+            if ((addr >> 24) == (keep_off >> 24)) continue;                  // (not next to the heap block itself)
+            void *m = mmap(reinterpret_cast<void *>(addr), len, PROT_READ | PROT_WRITE, MAP_PRIVATE | MAP_ANONYMOUS | MAP_FIXED_NOREPLACE, -1, 0);
+            if (m == MAP_FAILED) continue;
+            if (reinterpret_cast<uintptr_t>(m) != addr) { munmap(m, len); continue; }          // (a kernel / emulator that took the address as a hint)
+            p = static_cast<char *>(m);
+            vrt::RecyclePool::poison(p, len);
+            return p + (low & 4095);
+        }
+        p = nullptr;
+        return nullptr;
+    }
+};
+
+template <typename T>
+static void congruent_phase()
+{
+    typedef Pool<T> P;
+    typedef typename P::B B;
+    const char *tn = TN<T>::n();
+    const std::string pn = std::string("congruent_") + tn;
+    unsigned elem_bits = 0;
+    while ((static_cast<size_t>(1) << elem_bits) < sizeof(T)) ++elem_bits;
+    vrt::phase(pn.c_str(), vrt::tier_count(96, 4000), [&](uint64_t idx, Rng &r) {
+        const size_t L = P::limit();
+        // where the in-object array is, from an object (not from the declaration)
+        size_t data_off;
+        { B probe; data_off = static_cast<size_t>(reinterpret_cast<const char *>(probe.data()) - reinterpret_cast<const char *>(&probe)); }
+        const unsigned choices[] = {16, 32, 32 + elem_bits, 24, 32 + elem_bits, sizeof(T) == 1 ? 33u : 32u};
+        const unsigned bits = choices[idx % 6];
+        const uintptr_t M = static_cast<uintptr_t>(1) << bits;
+        const size_t lens[] = {L, L + 1, 2 * L, 40, 100, 1000, 5000};
+        const size_t n = lens[r.below(7)];
+        // the block starts d bytes behind the congruent point: 0, or a few elements (whole 8-byte steps: the object must stay aligned)
+        const size_t d = r.chance(1, 2) ? 0 : 8 * r.below(L * sizeof(T) / 8);
+        {
+            Mapping map1, map2;
+            P pool(Places<B>::NONE);
+            const size_t N = P::N;
+            pool.len_fn = [&pool, n](Rng &rr) -> size_t { return rr.chance(1, 2) ? n : pool.class_len(rr); };
+            auto op = [&](unsigned o, size_t i, size_t j, size_t e) { pool.do_op(r, o, i, j, e); };
+            auto lenop = [&](unsigned o, size_t len, size_t i, size_t j, size_t e) { pool.force_len = len; op(o, i, j, e); };
+            auto drop = [&](size_t k) { if (pool.slots[k].box) op(P::OP_DESTROY, k, N, N); };
+            auto related = [&](size_t k) -> bool {
+                const B &b = **pool.slots[k].box;
+                return b.size() >= L && ((reinterpret_cast<uintptr_t>(b.data()) - (reinterpret_cast<uintptr_t>(&b) + data_off + d)) & (M - 1)) == 0;
+            };
+            auto tally = [&](size_t k, const char *how) {
+                if (!pool.slots[k].box || !related(k)) return;
+                vrt::count("congruent.object_congruent_to_its_own_block");
+                vrt::count(sfmt("congruent.modulo_2^%u", bits));
+                vrt::count(std::string("congruent.reached_by.") + how);
+                if (d) vrt::count("congruent.block_a_few_elements_behind_the_congruent_point");
+            };
+            const size_t S = 1;                 // the slot whose object lives at the computed place
+            // 1. a long buffer at an ordinary place; its block is at H
+            lenop(P::OP_PTR_CTOR, n, N, N, 0);
+            if (!pool.slots[0].box) return;
+            const uintptr_t H = reinterpret_cast<uintptr_t>((**pool.slots[0].box).data());
+            char *A = map1.at(r, H - data_off - d, bits, H);
+            if (!A) { vrt::count("congruent.skipped"); return; }
+            // 2. moved into the place
+            pool.place_next = A;
+            op(P::OP_MOVE_CTOR, N, 0, S);
+            tally(S, "move_construction");
+            op(P::OP_READ, S, 0, N);
+            // 3. out of it: copies first (the object keeps its block), then a move; back in by move assignment; out the other way
+            lenop(P::OP_PTR_CTOR, r.chance(1, 2) ? n : pool.class_len(r), N, N, 3);
+            const bool ctor_first = r.chance(1, 2);
+            for (unsigned round = 0; round < 2; ++round) {
+                if (r.chance(1, 2)) { drop(2); op(P::OP_COPY_CTOR, N, S, 2); }
+                if (r.chance(1, 2)) op(P::OP_COPY_ASSIGN, 3, S, N);
+                if (r.chance(1, 3)) op(P::OP_COPY_ASSIGN, S, S, N);
+                if (r.chance(1, 3)) op(P::OP_MOVE_ASSIGN, S, S, N);
+                if (r.chance(1, 3)) op(P::OP_ELEMENT_WRITE, S, N, N);
+                size_t holder;
+                if ((round == 0) == ctor_first) { drop(4); op(P::OP_MOVE_CTOR, N, S, 4); holder = 4; }
+                else { op(P::OP_MOVE_ASSIGN, 3, S, N); holder = 3; }
+                vrt::count("congruent.moved_out_of_the_place");
+                op(P::OP_READ, holder, S, N);
+                if (round == 0) {
+                    op(P::OP_MOVE_ASSIGN, S, holder, N);                   // the block comes back to the object at A
+                    tally(S, "move_assignment");
+                }
+            }
+            // 4. the object at A, whatever it holds now, takes part in a few random steps
+            for (unsigned k = 0; k < 8; ++k) pool.step(r);
+            // 5. an object built in place at an address computed for a block that has just been released: the library's own
+            // allocation for it gets that block back (rt/vrt_alloc.h re-issues a parked block to the next request of its size)
+            drop(S);
+            drop(5);
+            if (!pool.slots[2].box || pool.slots[2].shadow.size() != n) { drop(2); lenop(P::OP_FILL_CTOR, n, N, N, 2); }
+            op(P::OP_COPY_CTOR, N, 2, 5);
+            if (!pool.slots[5].box) return;                       // (given up after a violation)
+            const uintptr_t H2 = reinterpret_cast<uintptr_t>((**pool.slots[5].box).data());
+            vrt::placement_force_parks() = 1;
+            op(P::OP_DESTROY, 5, N, N);
+            vrt::placement_force_parks() = 0;
+            char *A2 = map2.at(r, H2 - data_off - d, bits, H2);
+            if (!A2) { vrt::count("congruent.skipped"); return; }
+            pool.place_next = A2;
+            const char *how;
+            switch (r.below(5)) {
+            case 0: op(P::OP_COPY_CTOR, N, 2, S); how = "copy_construction"; break;
+            case 1: lenop(P::OP_FILL_CTOR, n, N, N, S); how = "fill_construction"; break;
+            case 2: op(P::OP_DEFAULT_CTOR, N, N, S); op(P::OP_COPY_ASSIGN, S, 2, N); how = "copy_assignment"; break;
+            case 3: op(P::OP_DEFAULT_CTOR, N, N, S); lenop(P::OP_ALLOCATE, n, S, N, N); how = "allocate"; break;
+            default: op(P::OP_DEFAULT_CTOR, N, N, S); pool.force_fill = 1; lenop(P::OP_ALLOCATE_FILL, n, S, N, N); how = "allocate_fill"; break;
+            }
+            vrt::count("congruent.objects_built_in_place");
+            if (pool.slots[S].box && reinterpret_cast<uintptr_t>((**pool.slots[S].box).data()) == H2) vrt::count("congruent.objects_built_in_place_that_got_the_expected_block");
+            tally(S, how);
+            op(P::OP_READ, S, 2, N);
+            if (r.chance(1, 2)) { drop(4); op(P::OP_MOVE_CTOR, N, S, 4); } else { pool.slots[3].box ? op(P::OP_MOVE_ASSIGN, 3, S, N) : op(P::OP_MOVE_CTOR, N, S, 3); }
+            vrt::count("congruent.moved_out_of_the_place");
+            for (unsigned k = 0; k < 4; ++k) pool.step(r);
+            for (size_t k = 0; k < N; ++k) drop(k);
+            vrt::distinct(vrt::fnv1a(pool.history.data(), pool.history.size(), vrt::fnv_u64(idx, vrt::fnv_str(tn))));
+            if (vrt::want_sample("congruent") && bits >= 32)
+                vrt::sample("congruent", sfmt("buffer<%s>: %zu elements, heap block at %#zx, object at %p: in-object array (offset %zu) + %zu == block modulo 2^%u; second object at %p for the block at %#zx | %s",
+                                              tn, n, static_cast<size_t>(H), static_cast<void *>(A), data_off, d, bits, static_cast<void *>(A2), static_cast<size_t>(H2), pool.history.substr(0, 300).c_str()));
+        }
+        if (va::reg().live_lib != 0) {
+            vrt::violation(sfmt("C05:buffer<%s>:leak-at-quiescence", tn), sfmt("%zu library-owned blocks alive after all buffers were destroyed (congruent)", va::reg().live_lib));
+            va::reg().live_lib = 0;
+        }
+        vrt::count("congruent.cases");
+    });
+}
+
 static void body()
 {
     vrt::require("static_init.checks", 4);
@@ -643,6 +1206,45 @@ static void body()
     histories<wchar_t>();
     histories<char16_t>();
     histories<char32_t>();
+
+    // objects that are not 16-byte aligned, neighbours inside one block (all phases)
+    vrt::require("placement.objects_at_8_mod_16", 100000);
+    vrt::require("placement.objects_16_byte_aligned", 100000);
+    vrt::note("half of the stand-alone pool objects live at an address 8 mod 16 (8 bytes into a block that ends where the object ends); a quarter of the pools keep their first 2..4 slots inside one block "
+              "laid out as struct { int id; B a; B b; } (two of them), B arr[3] or std::pair<int, B> arr[2]; the monitor looks at every live object after every step");
+
+    vrt::require("same_storage.cases", 256);
+    vrt::require("same_storage.values", 1000);
+    vrt::require("same_storage.object_at_the_address_of_its_predecessor", 300);
+    vrt::require("same_storage.heap_block_at_the_address_of_its_predecessor", 200);
+    vrt::require("op.failing_call_threw", 500);
+    same_storage_phase<char>();
+    same_storage_phase<wchar_t>();
+    same_storage_phase<char16_t>();
+    same_storage_phase<char32_t>();
+
+    vrt::require("soak.cases_with_70000_or_more_consecutive_operations", 16);
+    vrt::require("soak.runs_of_64_or_more_equal_calls_then_a_different_one", 1000);
+    vrt::phase("soak", vrt::thorough() ? 64 : 16, [&](uint64_t idx, Rng &r) {
+        const unsigned family = static_cast<unsigned>((idx / 4) % 4);
+        switch (idx % 4) {
+        case 0: soak_case<char>(idx, r, family); break;
+        case 1: soak_case<char16_t>(idx, r, family); break;
+        case 2: soak_case<char32_t>(idx, r, family); break;
+        default: soak_case<wchar_t>(idx, r, family); break;
+        }
+    });
+
+    vrt::require("congruent.cases", 64);
+    vrt::require("congruent.object_congruent_to_its_own_block", 200);
+    vrt::require("congruent.modulo_2^16", 20);
+    vrt::require("congruent.modulo_2^32", 20);
+    vrt::require("congruent.moved_out_of_the_place", 200);
+    vrt::require("congruent.objects_built_in_place_that_got_the_expected_block", 40);
+    congruent_phase<char>();
+    congruent_phase<wchar_t>();
+    congruent_phase<char16_t>();
+    congruent_phase<char32_t>();
 
     vrt::require("scale.cases", 64);
     vrt::require("scale.fill_at_exact_multiple", 64);
